@@ -7,6 +7,12 @@ VARIABLE gates
 CCInit == gates = <<>>
 AppendGate(g) == gates' = Append(gates, g)
 AppendIdentity == UNCHANGED gates                   \* CliffordCircuit.I(...) is a no-op
+\* random_one_qubit_gate(a) / random_two_qubit_gate(a, b): the generator picks the gate name, the object appends exactly that gate on
+\* exactly the requested wires (through the same recorder as an explicit append - "I" appends nothing).  The name is the unlogged
+\* choice of the action; a trace binds it to the entry observed in the gate list.
+RandomNames(b) == IF b = 0 THEN GateNames1 \cup {"I"} ELSE GateNames2
+RandomGate(k, a, b) == /\ k \in RandomNames(b) /\ (b # 0 => a # b)
+                       /\ IF k = "I" THEN AppendIdentity ELSE AppendGate([k |-> k, a |-> a, b |-> b])
 CanQuery == gates # <<>>                            \* num_qubit of an empty circuit is undefined in the library
 CurN == NumQubit(gates)
 CurT == CircuitT(gates, CurN)
